@@ -115,12 +115,31 @@ def run(repo: Repo, rep: Report, tier: str) -> None:
             contributions.append((f, c, target, kind, blocked))
     rep.floor("C13-R2", "contributions to the exclusion sets", len(contributions), 2)
     rep.analysed["C13-R2:contributions"] = [f"{f.short}: {norm(c)[:60]} -> {t} kind={k} builtin-names-blocked={b}" for f, c, t, k, b in contributions]
-    good = [x for x in contributions if x[3] == "signal-name" and not x[4]]
-    rep.check(bool(good), "C13-R2", "explicit built-in signal names of the program reach the allocation exclusion set",
-              f"{good[0][0].short}: {norm(good[0][1])}" if good else
-              "referenced_signal_names receives variable names (IdentifierExpr.name); signal names are only registered by ensure_signal_registered, "
-              "which returns before registering any name already in the game database: a program that uses signal-A explicitly can have an untyped value allocated to signal-A",
-              contributions[0][0].loc(contributions[0][1]))
+    # per syntax slot that carries an explicit signal name: does its lowering record the name where the allocator's exclusion set sees it,
+    # without the "already a game signal -> skip" guard of ensure_signal_registered?  (A direct store into the shared signal table does.)
+    SLOTS = {
+        "SignalLiteral.signal_type": ["ExpressionLowerer.lower_signal_literal", "ExpressionLowerer._lower_typed_literal_value"],
+        "ProjectionExpr.target_type": ["ExpressionLowerer.lower_projection_expr", "ExpressionLowerer._try_fold_projection_into_source"],
+        "MemDecl.signal_type": ["MemoryLowerer.lower_mem_decl"],
+    }
+    EXAMPLE = {
+        "SignalLiteral.signal_type": "Signal a = (\"signal-A\", 5); Signal b = 7; Signal c = a + b;  -> the untyped b is allocated signal-A as well",
+        "ProjectionExpr.target_type": "Signal x = 5; Signal y = (x * 2) | \"signal-A\"; Signal z = 7; Bundle r = {y, z};  -> an untyped value would share signal-A with y",
+        "MemDecl.signal_type": "Memory m: \"signal-A\"; Signal b = 7; m.write(b + 1, when=b > 0); Signal r = m.read() + b;  -> the untyped b is allocated the cell's signal-A",
+    }
+    for slot, handlers in SLOTS.items():
+        hs = [repo.func(h) for h in handlers]
+        direct = []
+        for h in hs:
+            for n in walk_local(h.node):
+                if isinstance(n, ast.Subscript) and isinstance(n.ctx, ast.Store) and norm(n.value).endswith("signal_type_map"):
+                    direct.append((h, n))
+        unblocked = [x for x in contributions if x[0].qual in {h.qual for h in hs} and x[3] == "signal-name" and not x[4]]
+        ok = bool(direct) or bool(unblocked)
+        rep.check(ok, "C13-R2", f"explicit signal names written in {slot} reach the allocation exclusion set",
+                  (f"{direct[0][0].short}: {norm(direct[0][1])[:70]}" if direct else f"{unblocked[0][0].short}: {norm(unblocked[0][1])[:70]}") if ok else
+                  "only ensure_signal_registered is called, which returns before registering any name already in the game database, and referenced_signal_names receives variable names: "
+                  + EXAMPLE[slot], hs[0].loc())
 
     # ---------------- R3 ---------------------------------------------------------------
     rep.rule("C13-R3", "resolve_signal_name returns the program's literal for a non-implicit known signal before any mapping lookup")
@@ -162,6 +181,9 @@ def run(repo: Repo, rep: Report, tier: str) -> None:
     from .shared import borrow as _borrow
     _borrow(repo, rep, "C10", "C10-R3", "C13-R5", "an explicitly typed value keeps the signal name the program wrote: common-subexpression elimination may merge two nodes only if their output types agree, "
             "i.e. the CSE key reads the output type of every keyed node kind", select=lambda o: o.construct.endswith(".output_type"), floor=2)
+
+    # ---------------- R6 ---------------------------------------------------------------
+    _borrow(repo, rep, "C07", "C07-R5", "C13-R6", "the signals the compiler picks reach the blueprint: the table the allocator writes is the very object the emitter reads")
 
 
 def _stmt(pm, n):
